@@ -12,6 +12,27 @@ TRUST_NUMPY = "S-NUMPY: documented semantics of the numpy/pyfftw calls on the an
 TRUST_ALG = "the checker's exact algebra (rational functions over Q[i], equality by clearing denominators) and its abstract interpreter"
 
 
+def solver_check(fn):
+    """run a check with a fresh SolverAnalysis; a path that divides by an
+    identically zero quantity is reported as a violation, not as an analysis error"""
+
+    def wrapper(P, tier):
+        SA = SolverAnalysis(P)
+        holder = {}
+        try:
+            R, tech = fn(P, tier, SA, holder)
+        except RS.NoPath:
+            if not SA.faults or "R" not in holder:
+                raise
+            R, tech = holder["R"], holder.get("tech", "abstract interpretation")
+        R.add(SA.fault_obs())
+        R.analysed["paths"] = SA.nruns
+        return R, tech
+
+    wrapper.__name__ = fn.__name__
+    return wrapper
+
+
 def _one(vs, what):
     if not vs:
         raise AnalysisError("no solver path for %s" % what)
@@ -21,8 +42,9 @@ def _one(vs, what):
 # --------------------------------------------------------------------------
 
 
-def check_C05(P, tier):
-    R = Result("C05", tier)
+@solver_check
+def check_C05(P, tier, SA, holder):
+    R = holder["R"] = Result("C05", tier)
     R.min_obligations = 24
     R.explanation = ("Uniform profiles. (R-ANALYTIC) the analytic branch is interpreted abstractly and the spectral coefficient fed to the "
                      "output transform is compared, as an exact algebraic identity, with the half-space closed form q0*exp(-lambda h), q/(Kz lambda), "
@@ -31,7 +53,6 @@ def check_C05(P, tier):
                      "and its Taylor coefficients in dz=z[i+1]-z[i] are compared with those of exp(M dz) through dz^3 for all symbols at once. "
                      "Decides the structure that yields third order; the observed ratio itself is numerical and not decided.")
     R.trusted = [TRUST_NUMPY, TRUST_ALG, "a one-step method whose local expansion agrees with the exact propagator through dz^3 has global order 3"]
-    SA = SolverAnalysis(P)
     # R-STEP3 on the numerical generic path
     S, vs = views(SA, False, False, "generic")
     v = _one(pick(vs, shifted=False), "numerical dispersion, no clamp, no shift")
@@ -81,8 +102,9 @@ def check_C05(P, tier):
     return R, "closed-form equality of normal forms; propagator series to dz^3"
 
 
-def check_C01(P, tier):
-    R = Result("C01", tier)
+@solver_check
+def check_C01(P, tier, SA, holder):
+    R = holder["R"] = Result("C01", tier)
     R.min_obligations = 20
     R.explanation = ("Structure of a consistent, correctly closed one-step method, each clause an exact identity of normal forms obtained by abstract "
                      "interpretation of the solver: (R-STEP1) the sweep's layer matrix is I + M dz + O(dz^2) with M the S-PDE system matrix, coefficients "
@@ -93,7 +115,6 @@ def check_C01(P, tier):
                      "convergence for every smooth positive profile family; constants and ratios are numerical and not decided.")
     R.trusted = [TRUST_NUMPY, TRUST_ALG, "convergence theorem for consistent one-step methods on linear ODE systems with smooth coefficients",
                  "np.sqrt of a complex argument returns the principal root (Re >= 0)"]
-    SA = SolverAnalysis(P)
     S, vs = views(SA, False, False, "generic")
     v = _one(pick(vs, shifted=False), "numerical dispersion, no clamp, no shift")
     R.add(RS.step_obligations(v, 1, "R-STEP1", uniform=False))
@@ -169,3 +190,359 @@ def mean_obligations(w, footprint, rule):
     else:
         obs.append(req_ob(rule, site, "mean increment is algebraic", None, detail=repr(b)))
     return obs
+
+
+# --------------------------------------------------------------------------
+# shared helpers
+
+
+def _prepare(v):
+    """identify p/q roles on a numerical path (needed by trajectory_spec)"""
+    RS.step_obligations(v, 1, "_", uniform=False)
+    return v
+
+
+def _analysis_events(v):
+    return [e[2] for e in v.r.events if e[0] == "analysis"]
+
+
+def _halo_modes(tier):
+    return ("given", "none") if True else ("given",)
+
+
+def reflect_obligations(SA, rule, halo="given"):
+    """transform directions and normalisations (R-REFLECT / R-NORM)"""
+    obs = []
+    for fp in (False, True):
+        S, vs = views(SA, fp, False, "generic", halo=halo)
+        v = _one(pick(vs, shifted=None if fp else False), "numerical path")
+        N = v.Ny * v.Nx
+        for nm in ("conc", "flx"):
+            sy = v.fields[nm]["synth"]
+            site = "src/bldfm/solver.py::steady_state_transport_solver::output transform of %s (footprint=%s)" % (nm, fp)
+            want = "fwd" if fp else "inv"
+            obs.append(req_ob(rule, site, "output transform has direction %s (footprint = point reflection of the Green's function)" % want, sy["dir"] == want,
+                              detail="direction %s" % sy["dir"], key={"out": nm, "footprint": fp}))
+            obs.append(eq_ob(rule, site, "output transform is unscaled", sy["scale"], ONE, "numpy: fft2(norm='backward') and ifft2(norm='forward') carry no 1/N"))
+        if not fp:
+            an = _analysis_events(v)
+            site = "src/bldfm/solver.py::steady_state_transport_solver::transform of the source"
+            if len(an) != 1:
+                obs.append(req_ob(rule, site, "the padded source is transformed exactly once", None if not an else False, detail="%d transforms" % len(an)))
+            else:
+                a = an[0]
+                obs.append(req_ob(rule, site, "source transform is the forward DFT", a["dir"] == "fwd", detail=a["dir"]))
+                obs.append(eq_ob(rule, site, "source transform carries the single 1/N", a["scale"] * N, ONE, "norm='forward' on the padded grid"))
+    return obs
+
+
+def crop_obligations(v, rule, footprint):
+    """pad/crop/coordinates (R-CROP, R-HALO)"""
+    S = v.S
+    obs = []
+    site = v.site("halo padding and crop (footprint=%s)" % footprint)
+    for nm in ("conc", "flx"):
+        a = getattr(v, nm)
+        shp = a.meta.get("presqueeze_shape", a.shape)
+        want = (S.nlev, S.ny, S.nx)
+        ok = shp is not None and len(shp) == 3 and all(x.eq(y) for x, y in zip(shp, want))
+        obs.append(req_ob(rule, site, "%s has shape (levels, ny, nx) of the surface-flux field" % nm, ok, detail="shape %r" % (shp,), key={"out": nm}))
+        c = v.fields[nm]["crop"]
+        obs.append(eq_ob(rule, site, "%s crop offset in x is the x pad width" % nm, c[1], v.px))
+        obs.append(eq_ob(rule, site, "%s crop offset in y is the y pad width" % nm, c[0], v.py))
+    obs.append(eq_ob(rule, site, "padded x size is nx + 2 px", v.Nx, S.nx + 2 * v.px))
+    obs.append(eq_ob(rule, site, "padded y size is ny + 2 py", v.Ny, S.ny + 2 * v.py))
+    if not footprint:
+        an = _analysis_events(v)
+        if len(an) == 1 and an[0]["pad"]:
+            w = an[0]["pad"]["widths"]
+            obs.append(req_ob(rule, site, "source is padded with zeros", an[0]["pad"]["zero"] is True, detail="mode=%r value=%r" % (an[0]["pad"]["mode"], an[0]["pad"]["value"])))
+            obs.append(eq_ob(rule, site, "x pad before equals crop offset", w[-1][0], v.px))
+            obs.append(eq_ob(rule, site, "x pad after equals x pad before", w[-1][1], w[-1][0]))
+            obs.append(eq_ob(rule, site, "y pad before equals crop offset", w[-2][0], v.py))
+            obs.append(eq_ob(rule, site, "y pad after equals y pad before", w[-2][1], w[-2][0]))
+            obs.append(req_ob(rule, site, "the padded array is the surface-flux argument itself", an[0]["pad"]["of"] is S.srf_flx or an[0]["src"] is S.srf_flx))
+        else:
+            obs.append(req_ob(rule, site, "the zero-padded source is what gets transformed", None if not an else False, detail="%d analysis transforms" % len(an)))
+    # coordinates
+    obs.append(eq_ob(rule, v.site("output grid"), "x coordinate of column i is i*dx", v.X.val, alg.fn("idx", S.nx, integer=True) * v.dx, "linspace(0, xmax, nx, endpoint=False)"))
+    obs.append(eq_ob(rule, v.site("output grid"), "y coordinate of row j is j*dy", v.Y.val, alg.fn("idx", S.ny, integer=True) * v.dy))
+    for nm, ax in (("X", 2), ("Y", 1), ("Z", 0)):
+        a = getattr(v, nm)
+        obs.append(req_ob(rule, v.site("output grid"), "%s varies along array axis %d" % (nm, ax), a.meta.get("varies_along") == ax, detail="varies along %r" % a.meta.get("varies_along")))
+    return obs
+
+
+# --------------------------------------------------------------------------
+
+
+@solver_check
+def check_C02(P, tier, SA, holder):
+    R = holder["R"] = Result("C02", tier)
+    R.min_obligations = 30
+    R.explanation = ("Registration identity between footprint and forward run, as exact identities of normal forms of the two abstractly interpreted modes: "
+                     "(R-UNIT) footprint source is the flat spectrum 1/(nxe*nye) of a unit cell on the padded grid; (R-REG) the footprint spectral coefficient "
+                     "at tower (0,0) equals exp(i(lx*px*dx+ly*py*dy)) times the forward coefficient per unit source, with px,py the very quantities used as "
+                     "crop offsets and pad widths (so a halo that is not a whole number of cells is registered by the cells actually padded); "
+                     "(R-REFLECT) footprint uses the transform of opposite direction, all unscaled except the single 1/N of the source transform; "
+                     "(R-CROP) pad/crop/coordinates; (R-DOT) point_measurement is the plain sum of the product. Rounding residuals are not decided.")
+    R.trusted = [TRUST_NUMPY, TRUST_ALG, "DFT shift theorem / reciprocity of the discrete convolution"]
+    for halo in ("given", "none"):
+        S, vd = views(SA, False, False, "generic", halo=halo)
+        S, vf = views(SA, True, False, "generic", halo=halo)
+        d = _prepare(_one(pick(vd, shifted=False), "dispersion"))
+        f = _prepare(_one(pick(vf), "footprint"))
+        site = f.site("footprint branch (halo %s)" % halo)
+        fi, di = RS.second_ivp_initial(f), RS.second_ivp_initial(d)
+        if len(fi) == 2 and len(di) == 2:
+            q0f, q0d = fi[1][1], di[1][1]
+            R.add(eq_ob("R-UNIT", site, "footprint source spectrum is that of a unit cell source on the padded grid", q0f, ONE / (f.Ny * f.Nx), "delta at one cell: flat spectrum 1/(nxe nye)", key={"halo": halo}))
+            lx, ly = f.wavenumbers()
+            off = alg.exp(IMAG * (lx * f.px * f.dx + ly * f.py * f.dy))
+            z0 = RS.zero_tower(S)
+            for nm in ("flx", "conc"):
+                cf, cd = f.coeff(nm), d.coeff(nm)
+                if isinstance(cf, Expr) and isinstance(cd, Expr) and isinstance(q0d, Expr) and isinstance(q0f, Expr):
+                    R.add(eq_ob("R-REG", site, "%s: Green's function at tower (0,0) is the forward response per unit source, displaced by the cropped cells" % nm,
+                                cf.subs(z0) * q0d, off * cd * q0f, "G registered at x_m + px*dx, y_m + py*dy with px, py the crop offsets", key={"out": nm, "halo": halo}))
+                    R.add(eq_ob("R-REG", site, "%s: tower position enters as exp(i(lx*xm + ly*ym))" % nm, cf, alg.exp(IMAG * (lx * S.xm + ly * S.ym)) * cf.subs(z0), key={"out": nm, "halo": halo}))
+                else:
+                    R.add(req_ob("R-REG", site, "%s coefficients are algebraic" % nm, None, detail="%r / %r" % (cf, cd)))
+        else:
+            R.add(req_ob("R-UNIT", site, "two auxiliary problems in both modes", False))
+        R.add(crop_obligations(f, "R-CROP", True))
+        R.add(crop_obligations(d, "R-CROP", False))
+        R.add(reflect_obligations(SA, "R-REFLECT", halo))
+    # R-DOT
+    R.add(dot_obligation(P))
+    R.analysed = {"files": ["src/bldfm/solver.py", "src/bldfm/utils.py", "src/bldfm/fft_manager.py"],
+                  "functions": ["steady_state_transport_solver", "ivp_solver", "point_measurement", "fft2", "ifft2"], "paths": SA.nruns}
+    return R, "registration identity of phase / pad / crop / transform direction"
+
+
+def dot_obligation(P):
+    from interp import Interp, SymArr, explore
+
+    mod = P.module("bldfm.utils")
+    fn = P.function("bldfm.utils", "point_measurement")
+    f = SymArr("f", 2, shape=(alg.sym("ny", pos=True, integer=True), alg.sym("nx", pos=True, integer=True)))
+    g = SymArr("g", 2, shape=f.shape)
+    res = explore(lambda dec: Interp(P, dec), lambda it: it.run_function(mod, fn, [f, g], {}))
+    site = "src/bldfm/utils.py::point_measurement"
+    if len(res) != 1 or res[0].kind != "return":
+        return req_ob("R-DOT", site, "single straight-line path", False)
+    return eq_ob("R-DOT", site, "result is the plain sum of the elementwise product", res[0].value, alg.fn("sum", f.val * g.val), "sum_cells f*g")
+
+
+@solver_check
+def check_C03(P, tier, SA, holder):
+    R = holder["R"] = Result("C03", tier)
+    R.min_obligations = 30
+    R.explanation = ("(R-MEANFLUX) at the mean Fourier mode the flux coefficient handed to the output transform equals the mean-mode coefficient of the source at "
+                     "every level, in natural layout, in all four mode combinations; (R-MEAN) the mean concentration is the background minus the mean flux times "
+                     "the partial sum of a consistent quadrature of dz/Kz; (R-NORM) transform normalisations multiply to the single 1/N, so the footprint weights "
+                     "on the padded grid sum to N*(1/N)=1; (R-HALO) halo reaches the result only through the integer pad widths, padding is zero and symmetric, "
+                     "grid increments come from the unpadded size, wavenumbers use the padded length, crop undoes the pad. The continuous resistance integral "
+                     "(quadrature error) is not decided.")
+    R.trusted = [TRUST_NUMPY, TRUST_ALG, "sum over the padded grid of an unscaled forward transform equals N times its mean-mode coefficient"]
+    lev = None
+    for fp in (False, True):
+        for an in (False, True):
+            S, vm = views(SA, fp, an, "mean")
+            w = _one(pick(vm, shifted=None if fp else False), "mean mode")
+            lev = RS.level_atom(S)
+            q00 = RS.source_spec(w, fp)
+            site = w.site("mean mode (footprint=%s, analytic=%s)" % (fp, an))
+            cq = w.coeff("flx")
+            R.add(eq_ob("R-MEANFLUX", site, "mean-mode flux coefficient equals the mean-mode source coefficient", cq, q00, "conservation: d q00/dz = 0", key={"footprint": fp, "analytic": an}))
+            if isinstance(cq, Expr):
+                R.add(req_ob("R-MEANFLUX", site, "mean-mode flux coefficient does not depend on the level", atom_of(lev) not in cq.atoms()))
+            R.add(RS.event_obs(w, "R-MEANFLUX", ("typestate",), "Fourier layout is consistent wherever [0,0] is used as the mean mode", site))
+            if not an:
+                R.add(mean_obligations(w, fp, "R-MEAN"))
+            if fp:
+                # weights sum to one: N * scale * q00 == 1
+                sy = w.fields["flx"]["synth"]
+                R.add(eq_ob("R-NORM", site, "footprint weights over the padded grid sum to one", cq * sy["scale"] * w.Ny * w.Nx if isinstance(cq, Expr) else cq, ONE,
+                            "sum_n fft2(c)[n] = N c[0,0] for the unscaled forward transform"))
+    R.add(reflect_obligations(SA, "R-NORM"))
+    S, vd = views(SA, False, False, "generic")
+    d0 = _one(pick(vd, shifted=False), "dispersion unshifted")
+    R.add([o for o in RS.step_obligations(d0, 1, "R-HALO", uniform=False) if "(q<-p), coefficient of dz^1" in o.what])
+    for halo in ("given", "none"):
+        for fp in (False, True):
+            S, vs = views(SA, fp, False, "generic", halo=halo)
+            v = _one(pick(vs, shifted=None if fp else True), "generic path")
+            R.add(crop_obligations(v, "R-HALO", fp))
+            if halo == "given":
+                hat = atom_of(S.halo)
+                for nm in ("conc", "flx"):
+                    c = v.coeff(nm)
+                    if not isinstance(c, Expr):
+                        R.add(req_ob("R-HALO", v.site("halo flow"), "%s coefficient is algebraic" % nm, None))
+                        continue
+                    bad = _halo_outside_int(c, hat)
+                    R.add(req_ob("R-HALO", v.site("halo flow (footprint=%s)" % fp), "%s depends on halo only through the integer pad widths" % nm, not bad, detail="; ".join(bad[:3]) or None, key={"out": nm}))
+    R.analysed = {"files": ["src/bldfm/solver.py", "src/bldfm/fft_manager.py"], "functions": ["steady_state_transport_solver", "ivp_solver"], "paths": SA.nruns}
+    return R, "mean-mode reaching value, normalisation product, halo flow"
+
+
+def _halo_outside_int(x, hat, inside=False, acc=None):
+    """occurrences of the halo atom that are not inside an int(...) application"""
+    acc = [] if acc is None else acc
+    for m in x.n:
+        for a, e in m:
+            if a is hat and not inside:
+                acc.append("halo occurs outside int(): %s" % repr(Expr({m: alg.C1}))[:120])
+            ins = inside or (a.kind == "fn" and a.name == "int")
+            for arg in a.args:
+                if isinstance(arg, Expr):
+                    _halo_outside_int(arg.expand() if a.kind != "def" else arg, hat, ins, acc)
+            if isinstance(e, Expr):
+                _halo_outside_int(e, hat, inside, acc)
+    return acc
+
+
+@solver_check
+def check_C04(P, tier, SA, holder):
+    R = holder["R"] = Result("C04", tier)
+    R.min_obligations = 24
+    R.explanation = ("Linearity as a typing of the output normal forms: for each of the 2x2 mode combinations and both analysis points (non-mean mode, mean mode) the "
+                     "spectral coefficient handed to the (linear, S-NUMPY) output transform is expanded to a polynomial over the source atoms {source transform "
+                     "coefficient, background}; every term must have total degree exactly one in them, none may occur in a denominator, exponent or opaque "
+                     "argument, the flux must be free of the background, the background may enter only the mean mode of the concentration, and in footprint "
+                     "mode no atom derived from the values of the surface-flux array may occur at all. Well-typedness proves superposition for all inputs; "
+                     "rounding-level deviations are not decided.")
+    R.trusted = [TRUST_NUMPY, TRUST_ALG, "fft2/ifft2/pad/crop/.real are linear over R (S-NUMPY)", "the propagator atoms Phi are independent of the sources (checked: the layer matrix contains no source atom)"]
+    for fp in (False, True):
+        for an in (False, True):
+            for ctx in ("generic", "mean"):
+                S, vs = views(SA, fp, an, ctx)
+                for v in pick(vs, shifted=None)[:2]:
+                    site = v.site("output coefficient (footprint=%s analytic=%s %s mode%s)" % (fp, an, ctx, ", shifted" if v.shifted() else ""))
+                    bg = atom_of(S.p000)
+                    for nm in ("conc", "flx"):
+                        c = v.coeff(nm)
+                        if not isinstance(c, Expr):
+                            R.add(req_ob("R-LIN", site, "%s coefficient is algebraic" % nm, None, detail=repr(c)))
+                            continue
+                        alld = [a for a in c.atoms() if a.kind == "fn" and a.name in ("dft", "dft0", "idft", "idft0")]
+                        src = [a for a in alld if isinstance(a.args[0], Expr) and a.args[0].eq(S.srf_flx.val)]
+                        odd = [a for a in alld if a not in src]
+                        vals = _source_values_outside(c, S, src)
+                        R.add(req_ob("R-LIN", site, "%s: every transformed quantity is the surface-flux array itself" % nm, not odd, detail="; ".join(map(repr, odd))[:300] or None, key={"out": nm, "clause": "transform-of-source"}))
+                        hidden = [a for a in src + [bg] if a in c.atoms() and _occurs_hidden(c, a)]
+                        R.add(req_ob("R-LIN", site, "%s: sources occur only as polynomial factors (not in denominators, exponents, opaque arguments)" % nm, not hidden,
+                                     detail="; ".join(map(repr, hidden))[:300] or None, key={"out": nm}))
+                        if fp:
+                            R.add(req_ob("R-LIN", site, "%s in footprint mode contains no value of the surface-flux array" % nm, not src and not vals, detail="; ".join(map(repr, src + vals))[:300] or None, key={"out": nm}))
+                            sources = [bg]
+                        else:
+                            R.add(req_ob("R-LIN", site, "%s contains no elementwise value of the source other than through its transform" % nm, not vals, detail="; ".join(map(repr, vals))[:200] or None))
+                            sources = src + [bg]
+                        if nm == "flx" or ctx == "generic":
+                            R.add(req_ob("R-LIN", site, "%s is independent of the background concentration" % nm, bg not in c.atoms(), key={"out": nm, "clause": "background"}))
+                        deg = c.degree_in(sources) if sources else (0, 0)
+                        if fp:
+                            want = (0, 1) if (nm == "conc" and ctx == "mean") else (0, 0)
+                            ok = deg is not None and deg[0] >= want[0] and deg[1] <= want[1]
+                            what = "%s is affine in the background only" % nm
+                        else:
+                            ok = deg == (1, 1)
+                            what = "%s is homogeneous of degree one in (source transform, background)" % nm
+                        R.add(req_ob("R-LIN", site, what, ok, detail="degrees %r" % (deg,), key={"out": nm, "clause": "degree"}))
+    # the propagator itself must not depend on the sources
+    S, vs = views(SA, False, False, "generic")
+    v = _one(pick(vs, shifted=False), "numerical")
+    for a in _analysis_events(v):
+        pad = a.get("pad")
+        lin = pad is None or pad["zero"] or pad["mode"] in ("edge", "wrap", "reflect", "symmetric")
+        R.add(req_ob("R-LIN", v.site("halo padding"), "the padding of the source is a linear operation (zeros, or a linear boundary mode)", lin,
+                     detail=None if lin else "mode=%r constant=%r" % (pad["mode"], pad["value"])))
+    for L in v.ivp_loops():
+        for k, e in L.matrix.items():
+            if isinstance(e, Expr):
+                bad = [a for a in e.expand().atoms() if (a.kind == "fn" and a.name in ("dft", "dft0")) or a is atom_of(S.p000)]
+                R.add(req_ob("R-LIN", "src/bldfm/solver.py::ivp_solver::vertical sweep", "layer matrix entry %s<-%s is independent of the sources" % k, not bad, nontrivial=True))
+    R.analysed = {"files": ["src/bldfm/solver.py"], "functions": ["steady_state_transport_solver", "ivp_solver"], "paths": SA.nruns}
+    return R, "linearity typing (degree analysis) of output normal forms + value-independence"
+
+
+def _source_values_outside(x, S, good, acc=None):
+    """atoms built from the values of the surface-flux array that are not the
+    argument of one of the accepted transform atoms"""
+    acc = [] if acc is None else acc
+    fsym = atom_of(S.srf_flx.sym)
+    for m in x.n:
+        for a, e in m:
+            if a in good:
+                continue
+            if a.kind == "fn" and a.args and isinstance(a.args[0], Expr) and fsym in a.args[0].atoms() and a.name in ("elem", "at", "sum", "max", "min", "pick", "abs", "cumsum", "gather"):
+                acc.append(repr(a))
+                continue
+            for arg in a.args:
+                if isinstance(arg, Expr):
+                    _source_values_outside(arg, S, good, acc)
+            if isinstance(e, Expr):
+                _source_values_outside(e, S, good, acc)
+    return acc
+
+
+def _occurs_hidden(x, target):
+    """does `target` occur inside an argument / exponent / negative power?"""
+    for m in x.n:
+        for a, e in m:
+            if a is target:
+                if not isinstance(e, int) or e < 0:
+                    return True
+                continue
+            if isinstance(e, Expr) and target in e.atoms():
+                return True
+            for arg in a.args:
+                if isinstance(arg, Expr) and target in arg.atoms():
+                    return True
+    return False
+
+
+@solver_check
+def check_C06(P, tier, SA, holder):
+    R = holder["R"] = Result("C06", tier)
+    R.min_obligations = 16
+    R.explanation = ("Translation equivariance follows from the pipeline being a Fourier multiplier: (R-MULT) on every path the typestate analysis finds no "
+                     "layout, truncation or padding inconsistency between the forward transform of the source and the output transform, and the output coefficient "
+                     "is the source coefficient times a source-independent factor (degree one, no mixing of wavenumbers is expressible in the pointwise domain); "
+                     "(R-PHASE) the tower enters the footprint as exp(i(lx xm + ly ym)) with lx*dx = 2 pi k/nxe, k the integer FFT index, and the dispersion-mode "
+                     "re-centring factor is exp(i(lx(xm-xmax/2)+ly(ym-ymax/2))), independent of halo; (R-REFLECT) transform directions. Sub-cell shifts are not decided.")
+    R.trusted = [TRUST_NUMPY, TRUST_ALG, "DFT shift theorem"]
+    S, vd = views(SA, False, False, "generic")
+    S, vf = views(SA, True, False, "generic")
+    d0 = _one(pick(vd, shifted=False), "dispersion unshifted")
+    d1 = _one(pick(vd, shifted=True), "dispersion shifted")
+    f = _one(pick(vf), "footprint")
+    lx, ly = f.wavenumbers()
+    z0 = RS.zero_tower(S)
+    for nm in ("flx", "conc"):
+        cf = f.coeff(nm)
+        if isinstance(cf, Expr):
+            R.add(eq_ob("R-PHASE", f.site("footprint shift"), "%s: moving the tower multiplies mode (kx,ky) by exp(i(lx xm + ly ym))" % nm, cf, alg.exp(IMAG * (lx * S.xm + ly * S.ym)) * cf.subs(z0), key={"out": nm}))
+        c0, c1 = d0.coeff(nm), d1.coeff(nm)
+        if isinstance(c0, Expr) and isinstance(c1, Expr):
+            R.add(eq_ob("R-PHASE", d1.site("dispersion re-centring"), "%s: re-centring factor is exp(i(lx(xm-xmax/2)+ly(ym-ymax/2)))" % nm, c1,
+                        alg.exp(IMAG * (lx * (S.xm - S.xmx / 2) + ly * (S.ym - S.ymx / 2))) * c0, "value at the domain centre is the field at (xm, ym)", key={"out": nm}))
+            R.add(req_ob("R-PHASE", d1.site("dispersion re-centring"), "%s: unshifted path carries no tower dependence" % nm, not ({atom_of(S.xm), atom_of(S.ym)} & c0.atoms())))
+    kx = alg.fn("fftidx", f.nlx_eff, integer=True)
+    R.add(eq_ob("R-PHASE", f.site("wavenumbers"), "lx*dx = 2 pi k/nxe with integer k (whole-cell shifts are exact)", lx * f.dx, 2 * RS.PI() * kx / f.Nx))
+    ky = alg.fn("fftidx", f.nly_eff, integer=True)
+    R.add(eq_ob("R-PHASE", f.site("wavenumbers"), "ly*dy = 2 pi k/nye with integer k", ly * f.dy, 2 * RS.PI() * ky / f.Ny))
+    # the code's own wavenumbers: read off the layer matrix through R-STEP1 (shared with C01)
+    step = [o for o in RS.step_obligations(d0, 1, "R-MULT", uniform=False) if "(q<-p), coefficient of dz^1" in o.what]
+    R.add(step)
+    for fp, vv in ((False, vd), (True, vf)):
+        for v in vv:
+            R.add(RS.event_obs(v, "R-MULT", ("typestate", "shape"), "Fourier layout / truncation / padding consistent along the path (footprint=%s, clamp=%s)" % (fp, v.clamp_state())))
+    R.add(reflect_obligations(SA, "R-REFLECT"))
+    hat = atom_of(S.halo)
+    c1 = d1.coeff("flx")
+    c0 = d0.coeff("flx")
+    R.analysed = {"files": ["src/bldfm/solver.py", "src/bldfm/fft_manager.py"], "functions": ["steady_state_transport_solver", "ivp_solver"], "paths": SA.nruns}
+    return R, "Fourier-multiplier typestate + phase normal form"
